@@ -32,6 +32,7 @@ type Unit struct {
 	Gen       string            `json:"gen"`       // generator to run before loading (produces Files)
 	Shards    int               `json:"shards"`
 	Optional  bool              `json:"optional"`
+	Approx    bool              `json:"approx"`     // over-approximate branch feasibility with the byte/known-bits domains
 	XCheck    int               `json:"xcheck"`     // cross-validate this many sampled paths per harness natively
 	XFiles    []string          `json:"xfiles"`     // harness files for the native run (default: files)
 	XFlags    []string          `json:"xflags"`     // go test flags for the native run
@@ -57,6 +58,7 @@ type ReplaySpec struct {
 	Files    []string `json:"files"` // extra overlay files (harness helpers) needed by the replay
 	Arch     string   `json:"arch"`
 	Mode     string   `json:"mode"` // "native": run the harness natively with the model; else template
+	RefPkgs  map[string]string `json:"ref_pkgs"` // virtual package dirs (as in units) needed by the replay
 	Instrument []string `json:"instrument"` // repo files whose sync/atomic calls become scheduling points in the replay
 }
 
@@ -217,7 +219,7 @@ func buildOverlay(id string, u *Unit, repo string) (map[string]string, error) {
 	for virt, realDir := range u.RefPkgs {
 		rd := realDir
 		if strings.HasPrefix(rd, "$GOROOT") {
-			rd = strings.Replace(rd, "$GOROOT", runtime.GOROOT(), 1)
+			rd = strings.Replace(rd, "$GOROOT", goroot(), 1)
 		}
 		ents, err := os.ReadDir(rd)
 		if err != nil {
@@ -351,6 +353,7 @@ func runJob(job *Job) *JobResult {
 	in.fnsSeen = map[string]int{}
 	in.stubsSeen = map[string]int{}
 	in.xWanted = u.XCheck
+	in.approxDomain = u.Approx
 	deadline := time.Now().Add(time.Duration(job.Deadline) * time.Second)
 	for _, hn := range job.Harness {
 		fn, ok := ld.Harness[hn]
